@@ -266,9 +266,9 @@ func (fr *Frame) evalField(x *Val, name string, ctx *evalCtx) *Val {
 			}
 		}
 	}
-	if structOf(curT) != nil {
-		// struct-valued field: keep as location-backed struct value
-		return fr.load(cur)
+	if isSyncType(curT) {
+		// mutexes / condition variables are only ever named, never read
+		return &Val{loc: cur, typ: types.NewPointer(curT)}
 	}
 	return fr.load(cur)
 }
@@ -532,6 +532,45 @@ func (fr *Frame) evalCall(e *CExpr, ctx *evalCtx) *Val {
 			}
 		})
 		return out
+	case "lockInv": // lockInv(owner.mutex): the conjunction of the lock invariants of that mutex
+		x := fr.eval1(args[0], ctx)
+		if x.loc == nil {
+			efail("lockInv() needs a mutex field")
+		}
+		spec := fr.eng.lockSpecFor(x.loc)
+		if spec == nil {
+			efail("lockInv(): no lock-invariant declared for this mutex")
+		}
+		self := &Val{t: x.loc.ref, sort: sInt, typ: types.NewPointer(fr.eng.parseType(spec.typ))}
+		var cs []string
+		for _, inv := range spec.inv {
+			c := *ctx
+			c.names = map[string]*Val{"self": self}
+			c.callee = "lock-invariant"
+			v := fr.eval1(inv.E, &c)
+			cs = append(cs, v.t)
+		}
+		return boolVal(and(cs...))
+	case "atAcquire": // value right after the most recent Lock()/Wait() of the function
+		if ctx.region == nil {
+			efail("atAcquire() is only available in unlock clauses and lock invariants checked at a release")
+		}
+		c := *ctx
+		c.st = ctx.region
+		var out *Val
+		fr.withState(ctx.region, func() {
+			out = fr.eval1(args[0], &c)
+			if out.loc != nil && out.t == "" && !isSyncType(out.loc.typ) {
+				out = fr.load(out.loc)
+			}
+		})
+		return out
+	case "signalled":
+		x := fr.eval1(args[0], ctx)
+		if _, ok := fr.vc.heapSort["CV$signalled"]; !ok {
+			fr.vc.heapSort["CV$signalled"] = arrSort(sBool)
+		}
+		return boolVal(sel(fr.vc.heapGet(fr.st, "CV$signalled"), fr.scalar(x)))
 	case "atHead":
 		if ctx.head == nil {
 			efail("atHead() is only available in latch clauses")
